@@ -5,6 +5,7 @@ import ast
 from typing import Dict, Set
 
 from ..absint import Client, Ctx, Interp
+from ..flow import Flow
 from ..model import Cls, Func, Program, walk_own
 from ..report import Report
 from ..resolve import const_value, dotted
@@ -111,7 +112,7 @@ def r2_helper(prog, rep: Report, fam: Family):
                          scenario="a grandchild (or any process the test does not single out) keeps the inherited handle and shares "
                                   "the file offset with the opener", line=cmp_.lineno)
                 continue
-            _check_helper(prog, rep, helper, pid, c)
+            _check_helper(prog, rep, fam.reopen_view.get(c.qual, helper), pid, c)
         for name, want_open in (("open", True), ("close", False)):
             f = prog.resolve(c, name)
             if f is None or f in seen:
@@ -186,6 +187,18 @@ def r2_helper(prog, rep: Report, fam: Family):
                           scenario="close(); fork; open() in the child is skipped or the helper closes a None handle")
 
 
+
+
+
+def _flow_of(func):
+    """reaching definitions of the function (kept per node object; nodes are not shared between program variants)"""
+    fl = getattr(func.node, "_flow", None)
+    if fl is None:
+        fl = Flow(func.node)
+        func.node._flow = fl
+    return fl
+
+
 class _HelperCompares(Client):
     """state = (pid comparison evaluated, file known to be not open)"""
 
@@ -199,7 +212,8 @@ class _HelperCompares(Client):
         cmpd, notopen = state
         sn = ctx.func.self_name
         if isinstance(test, ast.Compare) and len(test.ops) == 1:
-            l, r, op = test.left, test.comparators[0], test.ops[0]
+            fl = _flow_of(ctx.func)
+            l, r, op = fl.expand(test.left), fl.expand(test.comparators[0]), test.ops[0]
             d = dotted(l)
             if d and len(d) == 2 and d[0] == sn and (d[1] == self.pid or d[1] in self.handles) and const_value(r, 0) is None:
                 if isinstance(op, ast.IsNot):
@@ -238,7 +252,8 @@ class _HelperOrder(Client):
     def refine(self, test, state, ctx):
         differs, rel, new, rec = state
         if ctx.func is self.helper and isinstance(test, ast.Compare) and len(test.ops) == 1:
-            l, r, op = test.left, test.comparators[0], test.ops[0]
+            fl = _flow_of(ctx.func)
+            l, r, op = fl.expand(test.left), fl.expand(test.comparators[0]), test.ops[0]
             if (self._is_pid_value(l, ctx) and dotted(r) == (ctx.func.self_name, self.pid)) or \
                     (self._is_pid_value(r, ctx) and dotted(l) == (ctx.func.self_name, self.pid)):
                 t, f_ = (True, rel, new, rec), (False, rel, new, rec)
